@@ -279,11 +279,6 @@ void harness(void) {
 		}
 		V_ASSERT(off == TLEN, "HARNESS shape lengths add up");
 	}
-#ifdef STRUCT_SK	/* narrower, cheap variant of the 3,3 shape: "[x]" LF "y=z" with the structural bytes concrete and x, y, z
-			 * symbolic letters (the fully symbolic 3,3 shape is in the thorough tier) */
-	text[0] = '['; text[2] = ']'; text[5] = '=';
-	V_ASSUME(in_name_alpha(text[1]) && text[1] != ']' && in_name_alpha(text[4]) && text[4] != ']' && in_name_alpha(text[6]));
-#endif
 	uint8_t *qs = v_buf(IN.qs, QS), *qk = v_buf(IN.qk, QK);
 	for (size_t i = 0; i < QS; i++) V_ASSUME(in_name_alpha(qs[i]));
 	for (size_t i = 0; i < QK; i++) V_ASSUME(in_name_alpha(qk[i]) && qk[i] != ']');
